@@ -181,16 +181,22 @@ impl SyncClient for Client {
 }
 
 #[derive(Clone)]
-pub struct Bridge {
+pub struct BridgeG<C: SyncClient + Clone + Send + Sync + 'static> {
     pub account_id: AccountId,
     pub account: Arc<Mutex<LocalAccount>>,
-    pub client: Client,
+    pub client: C,
     pub queue: sos_protocol::transfer::FileTransferQueueSender,
 }
 
+pub type Bridge = BridgeG<Client>;
+
 #[async_trait]
-impl RemoteSyncHandler for Bridge {
-    type Client = Client;
+impl<C> RemoteSyncHandler for BridgeG<C>
+where
+    C: SyncClient + Clone + Send + Sync + 'static,
+    HErr: From<C::Error>,
+{
+    type Client = C;
     type Account = LocalAccount;
     type Error = HErr;
 
@@ -201,7 +207,7 @@ impl RemoteSyncHandler for Bridge {
         &self.client
     }
     fn origin(&self) -> &Origin {
-        &self.client.origin
+        self.client.origin()
     }
     fn account_id(&self) -> &AccountId {
         &self.account_id
@@ -218,4 +224,9 @@ impl RemoteSyncHandler for Bridge {
 }
 
 #[async_trait]
-impl AutoMerge for Bridge {}
+impl<C> AutoMerge for BridgeG<C>
+where
+    C: SyncClient + Clone + Send + Sync + 'static,
+    HErr: From<C::Error>,
+{
+}
